@@ -325,6 +325,10 @@ var opsAll = []string{"=", "!=", "<", "<=", ">", ">=", "~="}
 
 // evalOp: does field key fk satisfy (op probe)? err for invalid regexp.
 func evalOp(fk Key, op string, pk Key, rex *regexp.Regexp) bool {
+	// the float ordering is IEEE 754's: NaN is unordered, only != holds
+	if fk.Kind == "float64" && pk.Kind == "float64" && (fk.F != fk.F || pk.F != pk.F) {
+		return op == "!="
+	}
 	switch op {
 	case "=":
 		return cmpKey(fk, pk) == 0
